@@ -272,7 +272,7 @@ func H_C13_NoPadAndSafe() {
 //verif:witness pad-rejected accepted
 //verif:policies runtime
 //verif:loopcap 20000
-//verif:fanout 400
+//verif:fanout 1300
 func H_C13_LongPadding() {
 	maxL := 1400
 	if nd.Thorough() {
